@@ -14,7 +14,7 @@ DRIVE_TIMEOUT = 3000
 TECHNIQUE = ("Coq proofs over ALL interleavings: frame property of routing by induction over the operation list (any interleaving of the packets of any "
              "channels and of closes of other channels), invariant of id allocation + registration under the map lock over every schedule of the atomic steps "
              "(induction over the step list), demultiplexing of ANY interleaving of the channels' transport writes on top of the C01 theorems; "
-             "+ correspondence of the models with the real Conn/Channel on an in-memory transport: sequential interleavings predicted exactly, recorded "
+             "+ correspondence of the models with the real Conn/Channel on an in-memory transport: sequential interleavings (incl. sends / resets between the packets of a package) predicted exactly, recorded "
              "histories of 1..16 goroutines (GOMAXPROCS 1/4/16) judged per channel by the extracted predicates; + the same under a -race build; "
              "+ a system of n closers of ONE channel (counting invariant over every schedule, shared with C13) with scenarios that put all closers into the window between "
              "the first closed check and the exclusive lock (a transport that holds the teardown packet)")
@@ -35,6 +35,12 @@ RULE = ("fn 4 setup: one logical channel is created against a peer that answers 
         "sends up to 5 packets for channel ids that do not exist. The recorded history (ids returned, per channel: messages sent, packets the peer sent, packages "
         "delivered, the client's writes carrying that id, connection errors seen) is the input of the predicates; in front of these, creation storms (16 goroutines released "
         "together into NewChannel, nothing else). "
+        "fn 6 sends between packets: 1..16 channels (0 and logical ones, ids as above, packet counters as in fn 2, packet sizes 512, 64, 16, 600) on one connection with the real reader "
+        "goroutine; per channel 1..2 generated responses (no PACKSIZE) cut into packets with cut probability 1/3, 1/6, 1/15 (cuts inside packages), merged in random order; BETWEEN the packets - each "
+        "fed only after the reader has routed the previous one and is parked in Read - the client performs a whole message (QueuePackage ... SendPackage, or QueuePackage ... + SendRemainingPackets) "
+        "or Channel.Reset: after a packet that leaves its channel's package incomplete with probability 2/3 (3 of 4 on that very channel, else on another one), after other packets 1/6; in front 27 fixed "
+        "cases (1..3 channels, DONE(count=1000+id) cut after 4 bytes on every channel, first halves, one send / flush / Reset on each channel in turn, second halves in the opposite order). "
+        "Output per operation: packet -> as fn 1 (what each channel received, invalid ids), send / reset -> result code + transport writes (250 cases quick, the 27 fixed ones again under -race; thorough 2500 + 250). "
         "fn 5 concurrent closers: 2..3 goroutines call Close on the SAME logical channel, in half of the cases Conn.Close is one of them (started first / last); 0..2 other logical "
         "channels on the connection, 0 or 2 packages left in the queue; the transport holds every Write of a CLOSE-type packet for that id until every closer is parked in such a write or has "
         "returned (whoever gets as far as the teardown is in the window between the first closed check and the exclusive lock while all others run), then lets the packets go; mode 0: all closers are "
@@ -66,6 +72,9 @@ ASSUMPTIONS = ["sync.RWMutex gives mutual exclusion (a thread that does not hold
                "channel ids are not reused after Close: at most 65536 NewChannel calls per connection succeed (C12_ids_distinct holds for every number of calls; later calls fail)"]
 LEVEL_TEXT = ("Machine-checked: C12_routing - for EVERY interleaving of received packets of any channels (registered or not) and closes of other channels, the events a channel "
               "sees packet by packet and its receive state equal those of the one-channel receive path (rx_run, the subject of C02/C03/C11) on the subsequence addressed to it; "
+              "C12_routing_ignores_sends / C12_routing_with_sends - in EVERY history that interleaves received packets and closes with whole messages and Channel.Reset on any channels (also on a channel "
+              "between two packets of a package addressed to it) the routing results and receive states equal those of the history with the sends erased, hence those of the one-channel receive path; "
+              "C12_sends_ignore_routing - the writes and send states do not depend on the packets received in between; "
               "C12_unknown_channel / C12_closed_channel_unknown - a packet for an id not in the map: one connection error naming the id, no state change; "
               "C12_ids_distinct - in EVERY schedule of the steps of NewChannel / Close (lock, read counter, atomic add, lookup, insert, delete, unlock by any number of threads) "
               "all ids ever returned are pairwise distinct and in 0..65535, C12_id_fresh_at_registration, C12_lock_excludes; counter-model C12_ids_unlocked_refuted (the unlocked "
